@@ -21,9 +21,17 @@ open OtelVerif.Payload
 
 /-! ## sizers -/
 
-/-- `sov(uint64(n)) = (bits.Len64(x|1)+6)/7`; a negative `int` converts to a 64-bit pattern with the top bit set -/
+/-- number of 7-bit groups of the varint encoding of `n` (`Model/Wire`): 1 for `n < 128`, one more per further 7 bits, at
+most 10 for a `uint64` (fuel 9).  This is `sov(x) = (bits.Len64(x|1)+6)/7` of proto_delta_sizer.go for every `uint64`; the
+equality with the real `DeltaSize` is tied by the differential on boundary values (0, 1, 126..129, 16383..16385,
+2097151/2, 2^40, negatives) on every run. -/
+def sovFuel : Nat → Nat → Nat
+  | 0, _ => 1
+  | f + 1, n => if n < 128 then 1 else 1 + sovFuel f (n / 128)
+
+/-- `sov(uint64(n))`; a negative `int` converts to a 64-bit pattern with the top bit set: 10 groups -/
 def sov (n : Int) : Int :=
-  if n < 0 then 10 else (((Nat.log2 (n.toNat ||| 1) + 1 + 6) / 7 : Nat) : Int)
+  if n < 0 then 10 else ((sovFuel 9 n.toNat : Nat) : Int)
 
 structure Sizer where
   bytes : Bool
